@@ -12,6 +12,18 @@ fn main() {
             let e2 = ast::Expr::from_str(&s).expect("reparse");
             println!("eq_shape: {}", e.eq_shape(&e2));
         }
-        _ => eprintln!("usage: probe expr <text>"),
+        Some("manifest") => {
+            use cedar_policy::{PolicySet, Schema, Validator};
+            let schema = Schema::from_cedarschema_str(&std::fs::read_to_string(&args[1]).unwrap()).unwrap().0;
+            let ps = PolicySet::from_str(&std::fs::read_to_string(&args[2]).unwrap()).unwrap();
+            let v = Validator::new(schema);
+            #[allow(deprecated)]
+            let m = cedar_policy::compute_entity_manifest(&v, &ps);
+            match m {
+                Ok(m) => println!("{}", serde_json::to_string_pretty(&m).unwrap()),
+                Err(e) => println!("error: {e}"),
+            }
+        }
+        _ => eprintln!("usage: probe expr <text> | manifest <schema> <policies>"),
     }
 }
